@@ -98,3 +98,9 @@ package config
 //@   requires@C13 lookup != nil
 //@   assigns map(lookup)
 //@   ensures forall k string :: has(lookup, k) == (old(has(lookup, k)) || has(MethodLinePkgs(sourcePackage, lines), k))
+
+//@ func ConverterConfig.PackageID
+//@   props C15
+//@   pure
+//@   requires@C13 conf != nil
+//@   ensures result == ite(conf.OutputPackageName == "", conf.OutputPackagePath, conf.OutputPackagePath + ":" + conf.OutputPackageName)
